@@ -61,8 +61,18 @@ def cases(draw, tier):
             rnd.shuffle(rest)
             res = po + rest if layout == "po_first" else rest + po
     res = "".join(res)
-    nseq = draw(st.integers(2, min(40, max(2, len(res)))))
-    cuts = sorted(rnd.sample(range(1, len(res)), nseq - 1)) if len(res) > nseq else list(range(1, len(res)))
+    many = len(res) >= 1100 and draw(st.integers(0, 2)) == 0
+    if many:
+        # more records than the readers' 512-entry increments (statistics must survive every growth of the arrays)
+        nseq = draw(st.sampled_from([513, 520, 600, 1025, 1030]))
+    else:
+        nseq = draw(st.integers(2, min(40, max(2, len(res)))))
+    if many:
+        # equal-sized records keep the concentrated letters of the po_first / po_last layouts in the first / last records
+        step = len(res) / float(nseq)
+        cuts = sorted(set(max(1, int(round(i * step))) for i in range(1, nseq)))
+    else:
+        cuts = sorted(rnd.sample(range(1, len(res)), nseq - 1)) if len(res) > nseq else list(range(1, len(res)))
     seqs = [res[a:b] for a, b in zip([0] + cuts, cuts + [len(res)])]
     seqs = [s for s in seqs if s]
     if len(seqs) < 2:
@@ -148,6 +158,8 @@ def check(case):
         cl.append("contains_U")
     if case["gapfrac"] > 0:
         cl.append("gapped>=%.2f" % case["gapfrac"])
+    if len(seqs) > 512:
+        cl.append("records>512")
     try:
         b1 = observe(seqs, case["names"], case["via"], case["gapfrac"], case["gap_seed"])
         rnd = random.Random(case["perm_seed"])
@@ -189,9 +201,9 @@ def extra(tier, seed, stats):
     n = 0
     for p in PONLY:
         for f in ALL:
-            for low in (False, True):
-                s1 = (p + f * 3) * 5
-                s2 = (f * 3 + p) * 4
+            for low, rep in ((False, (5, 4)), (True, (5, 4)), (False, (1, 1)), (False, (60, 40))):
+                s1 = (p + f * 3) * rep[0]
+                s2 = (f * 3 + p) * rep[1]
                 seqs = [s1.lower() if low else s1, s2]
                 want = gen.expected_kind(seqs)
                 if want is None:
@@ -204,7 +216,7 @@ def extra(tier, seed, stats):
                     continue
                 n += 1
                 stats.evaluations += 1
-                stats.nontrivial.add("enum:%s%s%d" % (p, f, low))
+                stats.nontrivial.add("enum:%s%s%d%d" % (p, f, low, rep[0]))
                 stats.classes["enumerated_boundary"] += 1
                 exp = 1 if want == "dna" else 0
                 if b != exp:
